@@ -46,6 +46,8 @@ pub struct HistCfg {
     pub allow_transfer_fee: bool,
     /// seed fee growth accumulators of empty pools to arbitrary values
     pub seed_growth: bool,
+    /// every pool is an adaptive-fee pool (C14)
+    pub all_adaptive: bool,
     pub spacings: Vec<u16>,
 }
 impl Default for HistCfg {
@@ -66,6 +68,7 @@ impl Default for HistCfg {
             allow_adaptive: false,
             allow_transfer_fee: false,
             seed_growth: false,
+            all_adaptive: false,
             spacings: vec![1, 8, 64, 128, 256, 32896],
         }
     }
@@ -147,7 +150,7 @@ impl Hist {
                 _ => rnd::sqrt_price(&mut w.r),
             };
             let v2 = w.r.gen();
-            let adaptive = cfg.allow_adaptive && sp < 32768 && rnd::chance(&mut w.r, 1, 2);
+            let adaptive = cfg.allow_adaptive && sp < 32768 && (cfg.all_adaptive || rnd::chance(&mut w.r, 1, 2));
             let res = if adaptive {
                 let gs_opts: Vec<u16> = (1..=sp).filter(|g| sp % g == 0).collect();
                 let gs = *rnd::pick(&mut w.r, &gs_opts);
@@ -162,7 +165,13 @@ impl Hist {
                     *rnd::pick(&mut w.r, &[1u16, sp, (sp as u32 * 88).min(65535) as u16]),
                 );
                 let idx = 1024 + pi as u16 * 7 + sp % 5;
-                w.add_adaptive_pool(c, m1, m2, idx, sp, fee, consts, price, None)
+                let now = w.now() as u64;
+                let enable = match w.r.gen_range(0..6) {
+                    0 => Some(now + *rnd::pick(&mut w.r, &[1u64, 60, 3600, 100_000])),
+                    1 => Some(now - w.r.gen_range(0..30)),
+                    _ => None,
+                };
+                w.add_adaptive_pool(c, m1, m2, idx, sp, fee, consts, price, enable)
             } else {
                 w.add_pool(c, m1, m2, sp, fee, price, v2)
             };
